@@ -8,7 +8,11 @@ RULE = ("complete enumeration of the finite space {13 USAGE spellings} x {signed
         "nine reports (calcsize, decoder acceptance of that width, schema maxLength/minLength, Location size, record end, Struct.calcsize, "
         "TextUnpacker.calcsize, and the lrecl that ONE long-lived COBOL_EBCDIC_File workbook - opened once for the run, a new sheet schema bound "
         "for every configuration - computes), pictures printed alternately with and without repeat notation; every third configuration places "
-        "the item inside a group that carries a USAGE clause of its own (the item's own clauses decide, here as everywhere); plus X(k)/A(k) for k<=40. "
+        "the item inside a group that carries a USAGE clause of its own (the item's own clauses decide, here as everywhere); data names "
+        "that hold USAGE words, PIC or PICTURE at the start, in the middle and at the end (COMP-AMOUNT, EMP-COMPANY, WS-COMP-DATE, TOT-BINARY-CT, "
+        "USE-DISPLAY, ELEMENTARY-PIC ...), also on the items written WITHOUT a USAGE clause (stream name_words: every name of the pool on "
+        "DISPLAY items without a USAGE clause, alone and inside a group with a USAGE clause; the name and the spelling of every copybook are "
+        "functions of the input, so a replay parses the same text); plus X(k)/A(k) for k<=40. "
         "Non-trivial = all; distinct = distinct case lines.")
 TRIVIAL_BRANCHES = []
 ASSUMPTIONS = ["struct.calcsize('h'/'i'/'q'/'f'/'d') = 2/4/8/4/8 (native sizes on this platform)",
@@ -16,6 +20,11 @@ ASSUMPTIONS = ["struct.calcsize('h'/'i'/'q'/'f'/'d') = 2/4/8/4/8 (native sizes o
 
 
 def inputs(ctx):
+    # every data name of the pool on DISPLAY items written WITHOUT a USAGE clause (nothing but the name could make them anything
+    # else), alone and inside a group that carries a USAGE clause; the wire form is that of the cfg stream
+    for i in range(len(NAMES)):
+        for j, (s, m, n) in enumerate([(False, 5, 0), (True, 3, 2), (False, 0, 4), (True, 9, 0), (False, 8, 0), (False, 3, 0)]):
+            yield "name_words", dict(k=1, u=DISPLAY, s=s, m=m, n=n, name=i, grp=(i + j + 1) % 2)
     ctx.exhaustive.append("13_spellings_x_signed_x_digit_pairs_1..18")
     for u in range(13):
         for s in (False, True):
@@ -44,7 +53,6 @@ def canonical(u, w):
 
 
 _UNP = None
-_N = [0]
 
 
 _WB = {}
@@ -71,31 +79,45 @@ def workbook():
     return _WB["wb"]
 
 
-def schema_reports(pic_text, usage_name, in_group=0):
-    """maxLength, minLength, location size, record end, Struct.calcsize, TextUnpacker.calcsize, workbook sheet lrecl"""
-    from stingray.cobol_parser import schema_iter
-    from stingray.schema_instance import SchemaMaker, EBCDIC, Struct, TextUnpacker, LocationMaker
-    # data names rotate through a pool that includes names beginning with a USAGE keyword (explicit USAGE must win)
-    _N[0] += 1
-    FLD = NAMES[_N[0] % len(NAMES)]
-    if usage_name is None:
-        # without a USAGE clause of its own a name that begins with a USAGE word decides the usage (finding K-name-contains-usage)
-        FLD = ["FLD", "AMOUNT"][_N[0] % 2]
-    h = _N[0] % 12
+def case_key(c):
+    """a number that depends on the case alone: the data name and the spelling of the copybook are functions of the INPUT, so
+    that a replay prints and parses the same copybook"""
+    if c["k"] == 1:
+        return ((c["u"] * 2 + int(c["s"])) * 19 + c["m"]) * 19 + c["n"]
+    return 10007 + 2 * c["kk"] + (1 if c["ch"] == "A" else 0)
+
+
+def copybook(pic_text, usage_name, in_group, key, name=None):
+    """(data name, copybook text) of one configuration"""
+    # data names rotate through a pool that holds USAGE words, PIC and PICTURE at the start, in the middle and at the end of a
+    # name (codec_common.NAMES) - for the items that carry a USAGE clause (it must win) AND for those that leave it out (the
+    # item is DISPLAY whatever its name says: before the repair of estruct.clause_pattern the name decided, finding
+    # K-name-contains-usage, now a fixed entry)
+    FLD = NAMES[(key * 7) % len(NAMES)] if usage_name is None else NAMES[key % len(NAMES)]
+    if name is not None:
+        FLD = NAMES[name]
+    h = key % 12
     pic_kw = ["PIC", "PICTURE", "PIC IS", "PICTURE IS"][h % 4]
     usage_kw = ["USAGE", "USAGE IS", ""][h // 4]
     # the record of interest is the SECOND 01; the first declares the same data name with another picture
     usage_line = "" if usage_name is None else f"               {usage_kw} {usage_name}"
     if in_group:
         # the item sits in a group that has a USAGE clause of its own, different from the item's
-        gu = ["COMP-3", "BINARY", "DISPLAY", "COMP"][(_N[0] // 3) % 4]
+        gu = ["COMP-3", "BINARY", "DISPLAY", "COMP"][(key // 3) % 4]
         if gu == usage_name:
             gu = "PACKED-DECIMAL"
         body = (f"           05  GRP USAGE {gu}.\n" f"               10  {FLD}\n"
                 f"               {pic_kw} {pic_text}\n" + (usage_line + ".\n" if usage_line else "               .\n"))
     else:
         body = (f"           05  {FLD}\n" f"               {pic_kw} {pic_text}\n" + (usage_line + ".\n" if usage_line else "               .\n"))
-    text = ("       01  PREV.\n" f"           05  {FLD} PIC X(7).\n" "       01  REC.\n" + body)
+    return FLD, ("       01  PREV.\n" f"           05  {FLD} PIC X(7).\n" "       01  REC.\n" + body)
+
+
+def schema_reports(pic_text, usage_name, in_group=0, key=0, name=None):
+    """maxLength, minLength, location size, record end, Struct.calcsize, TextUnpacker.calcsize, workbook sheet lrecl"""
+    from stingray.cobol_parser import schema_iter
+    from stingray.schema_instance import SchemaMaker, EBCDIC, Struct, TextUnpacker, LocationMaker
+    FLD, text = copybook(pic_text, usage_name, in_group, key, name)
     state = {}
     def load():
         (_prev, js) = list(schema_iter(io.StringIO(text)))
@@ -132,29 +154,39 @@ def schema_reports(pic_text, usage_name, in_group=0):
     return out
 
 
-def observe(ctx, c):
-    import stingray.estruct as E
+def config(c):
+    """(picture text, estruct clause text, own USAGE spelling or None, inside a group with a USAGE clause?) of a case"""
     if c["k"] == 1:
         u, s, m, n = c["u"], c["s"], c["m"], c["n"]
         pic = picture(s, m, n, repeat=((u + m + n) % 2 == 0))
-        cl = clause(u, pic)
+        grp = 1 if (u * 3 + m + 2 * n + int(s)) % 3 == 0 else 0
+        # a DISPLAY item may leave its USAGE clause out (every fourth of them does)
+        own = None if (u == DISPLAY and (m + n) % 4 == 1) else SPELLINGS[u]
+        if "name" in c:
+            own, grp = None, c["grp"]
+        return pic, clause(u, pic), own, grp
+    k, ch = c["kk"], c["ch"]
+    pic = f"{ch}({k})" if k % 2 else ch * k
+    return pic, f"PIC {pic}", "DISPLAY", 0
+
+
+def observe(ctx, c):
+    import stingray.estruct as E
+    pic, cl, own, grp = config(c)
+    if c["k"] == 1:
+        u, s, m, n = c["u"], c["s"], c["m"], c["n"]
         calc = rep(lambda: E.calcsize(cl))
         if calc[0] == 0:
             dec = observe_call(lambda: E.unpack(cl, canonical(u, calc[1])), lambda v: 1)
         else:
             dec = [2]
-        grp = 1 if (u * 3 + m + 2 * n + int(s)) % 3 == 0 else 0
-        # a DISPLAY item may leave its USAGE clause out (every fourth of them does)
-        own = None if (u == DISPLAY and (m + n) % 4 == 1) else SPELLINGS[u]
-        return [1, u, s, m, n, calc, dec] + schema_reports(pic, own, grp)
-    k, ch = c["kk"], c["ch"]
-    pic = f"{ch}({k})" if k % 2 else ch * k
-    cl = f"PIC {pic}"
-    r = schema_reports(pic, "DISPLAY")
+        return [1, u, s, m, n, calc, dec] + schema_reports(pic, own, grp, case_key(c), c.get("name"))
+    k = c["kk"]
+    r = schema_reports(pic, own, grp, case_key(c))
     return [2, k, rep(lambda: E.calcsize(cl)), r[0], r[2], r[3], r[5], r[6]]
 
 
 def describe(c):
-    if c["k"] == 1:
-        return dict(c, clause=clause(c["u"], picture(c["s"], c["m"], c["n"])))
-    return c
+    pic, cl, own, grp = config(c)
+    name, text = copybook(pic, own, grp, case_key(c), c.get("name"))
+    return dict(c, clause=cl, data_name=name, own_usage_clause=own, copybook=text)
